@@ -343,6 +343,59 @@ func authWorld(rng *Rng, n int, out *Out, replay string, variant int) {
 				run(h2, who, k+j)
 			}
 		}
+		if variant == 2 {
+			// endgame of the sparse world: the ADMIN holders go down to one and then to zero — each removal by the last
+			// one standing, which finally retires itself — and the retired accounts try the admin module's messages
+			adminEndgame(adminHolders(app, ctx, addrs), len(addrs), cases, func(hc handlerCase, signer int, k int) { run(hc, addrs[signer], k) })
+		}
+	}
+}
+
+// adminHolders: the indices of the accounts that hold ADMIN according to the raw store (canonical entries only) —
+// steering for the generator, not a judge
+func adminHolders(app *sifapp.SifchainApp, ctx sdk.Context, addrs []sdk.AccAddress) []int {
+	var res []int
+	st := ctx.KVStore(app.GetKey(admintypes.StoreKey))
+	for i, a := range addrs {
+		if st.Has(append(append([]byte{}, admintypes.AdminAccountStorePrefix...), []byte("ADMIN_"+a.String())...)) {
+			res = append(res, i)
+		}
+	}
+	return res
+}
+
+// adminEndgame: holders (at most 14 of them can sign) remove one another until nobody holds ADMIN; `send` delivers one
+// message.  Payload index 4 + 6*i = (ADMIN, account i, canonical spelling).
+func adminEndgame(holders []int, nacc int, cases []handlerCase, send func(hc handlerCase, signer int, k int)) {
+	var signers, others []int
+	for _, h := range holders {
+		if h < 14 {
+			signers = append(signers, h)
+		} else {
+			others = append(others, h)
+		}
+	}
+	if len(signers) == 0 {
+		return
+	}
+	var setParams handlerCase
+	for _, hc := range cases {
+		if hc.name == "SetParams" {
+			setParams = hc
+		}
+	}
+	last := signers[0]
+	for _, h := range append(others, signers[1:]...) {
+		send(cases[1], last, 4+6*h) // RemoveAccount(ADMIN, h) by the one that will stand last
+		send(setParams, h, h)       // the removed account's very next message
+	}
+	send(setParams, last, 1)       // still the one ADMIN
+	send(cases[1], last, 4+6*last) // … retires itself: accepted
+	send(setParams, last, 2)       // and is refused from now on
+	send(cases[0], last, 4+6*last) // cannot grant itself the role again
+	send(cases[1], last, 4+6*last) // nor "remove" anything
+	for _, h := range holders {
+		send(setParams, h, 3)
 	}
 }
 
